@@ -4,6 +4,7 @@ package gen2
 import (
 	"fmt"
 	"math/rand"
+	"sort"
 	"strings"
 	"sync"
 
@@ -79,8 +80,13 @@ func keyFeature(c *rig.Call) string {
 	for _, k := range c.Keys {
 		consider(k)
 	}
-	for _, k := range c.KeyOf {
-		consider(k)
+	names := make([]string, 0, len(c.KeyOf))
+	for n := range c.KeyOf {
+		names = append(names, n)
+	}
+	sort.Strings(names) // ties between classes of equal rank must not depend on map order
+	for _, n := range names {
+		consider(c.KeyOf[n])
 	}
 	return worst
 }
